@@ -87,7 +87,8 @@ def one(m, kind, props_filter, claimed, keep=False):
         res = {"id": m["id"], "kind": kind, "results": {}}
         if kind == "mutant":
             props = [p for p in m["expect"] if (not props_filter or p in props_filter) and p in claimed]
-            ok = bool(props)
+            quiet_here = [p for p in m.get("quiet", []) if p in claimed and (not props_filter or p in props_filter)]
+            ok = bool(props) or bool(quiet_here)
             for p in props:
                 rc, out = run_check(root, p, configs=m.get("configs"))
                 fired = rc == 1 and "VIOLATION property=%s" % p in out
@@ -110,7 +111,7 @@ def one(m, kind, props_filter, claimed, keep=False):
                     if rc != 0:
                         ok = False
                         res["output"] = out[-1500:]
-            res["status"] = "ok" if ok else ("no-claimed-property" if not props else "FAILED")
+            res["status"] = "ok" if ok else ("no-claimed-property" if not props and not quiet_here else "FAILED")
         else:
             props = [p for p in (m.get("quiet") or claimed) if (not props_filter or p in props_filter) and p in claimed]
             ok = True
@@ -147,7 +148,7 @@ def main():
     if a.kind in ("all", "neutral"):
         jobs += [(m, "neutral") for m in NEUTRAL if (not only or m["id"] in only)]
     if pf:
-        jobs = [(m, k) for m, k in jobs if k == "neutral" or set(m["expect"]) & pf]
+        jobs = [(m, k) for m, k in jobs if k == "neutral" or (set(m["expect"]) | set(m.get("quiet", []))) & pf]
     t0 = time.time()
     out = []
     with ThreadPoolExecutor(max_workers=a.j) as ex:
